@@ -1,4 +1,168 @@
-(** C02 - property theorems only (being filled in). *)
+(** C02 - property theorems only. Each is closed by [exact] of a lemma proved
+    in proofs/PipelineProofs.v / proofs/PipelineVProofs.v; nothing else lives here.
+
+    Vocabulary: model/Pipeline.v ([do_handle] = Pipeline.doHandle transcribed,
+    [hba] = HandleWithBeforeAfter, [validate] = Spec.Validate, [next_spec] /
+    [RefWalk] = the declarative successor and its iteration, [ideal] = no quirk
+    flag) and model/PipelineSpec.v ([later_named], [first_later_named],
+    [ValidDecls], [ValidJump], [ValidFlow], [side_run] ...).
+    [res : nat -> string] assigns a result to every filter invocation; all
+    theorems quantify over it, over every flow and every starting state. *)
 From EG.lib Require Import Base.
-From EG.model Require Import Pipeline.
-From EG.proofs Require Import PipelineProofs.
+From EG.model Require Import Pipeline PipelineSpec.
+From EG.proofs Require Import PipelineProofs PipelineVProofs.
+Open Scope string_scope.
+Open Scope list_scope.
+
+(** the visited sequence, the returned result, the way the run stops and the
+    number of invocations are exactly those of the iteration of [next_spec]
+    from node 0 - and that iteration is unique *)
+Theorem C02_run_is_reference_walk : forall flow res n act,
+  let o := do_handle ideal res flow n act in
+  RefWalk ideal flow res n (arrive flow 0) "" (map fst (visits o)) (result o) (fin_of o) (ninv o) /\
+  (forall v r fin n', RefWalk ideal flow res n (arrive flow 0) "" v r fin n' ->
+     v = map fst (visits o) /\ r = result o /\ fin = fin_of o /\ n' = ninv o).
+Proof. exact thm_run_is_reference_walk. Qed.
+Print Assumptions C02_run_is_reference_walk.
+
+(** what the successor is: "" -> the next position; a result that is unmapped
+    or mapped to END -> the pipeline ends; otherwise exactly the FIRST later
+    filter node named by jumpIf, every node in between (END nodes included)
+    being skipped; if no later node has that name the loop falls off *)
+Theorem C02_successor_is_declarative : forall flow i nd r,
+  nth_error flow i = Some nd ->
+  (r = "" -> next_spec ideal flow i r = arrive flow (S i)) /\
+  (r <> "" -> (target nd r = "" \/ target nd r = END) -> next_spec ideal flow i r = SEnd) /\
+  (r <> "" -> target nd r <> "" -> target nd r <> END ->
+     (exists j, first_later_named flow i j (target nd r) /\ next_spec ideal flow i r = SRun j) \/
+     ((forall j, ~ later_named flow i j (target nd r)) /\ next_spec ideal flow i r = SFell)).
+Proof. exact next_spec_declarative. Qed.
+Print Assumptions C02_successor_is_declarative.
+
+(** forward only: visited indices strictly increase, each is a filter node of
+    the flow, and the successor of a node always lies strictly after it *)
+Theorem C02_forward_only : forall flow res n act,
+  let o := do_handle ideal res flow n act in
+  Sorted.StronglySorted lt (map fst (visits o)) /\
+  Forall (fun i => exists nd, nth_error flow i = Some nd /\ is_end nd = false) (map fst (visits o)) /\
+  (forall i r j, next_spec ideal flow i r = SRun j -> i < j).
+Proof. exact thm_forward_only. Qed.
+Print Assumptions C02_forward_only.
+
+(** nothing runs after END: when the run saw END there is a position k - an END
+    node that was reached (everything that ran lies before it), or the filter
+    that ran last and returned a result unmapped / mapped to END - such that no
+    later position ran and the outcome does not depend on what follows k *)
+Theorem C02_nothing_after_end : forall flow res n act,
+  let o := do_handle ideal res flow n act in
+  saw_end o = true ->
+  exists k nd, nth_error flow k = Some nd /\
+    ((is_end nd = true /\ Forall (fun v => fst v < k) (visits o)) \/
+     (is_end nd = false /\ (exists a, In (k, a) (visits o)) /\ result o <> "" /\
+      (target nd (result o) = "" \/ target nd (result o) = END))) /\
+    Forall (fun v => fst v <= k) (visits o) /\
+    forall tail', do_handle ideal res (firstn (S k) flow ++ tail') n act = o.
+Proof. exact thm_nothing_after_end. Qed.
+Print Assumptions C02_nothing_after_end.
+
+(** the pipeline result is the result of the last filter run ("" if none ran) *)
+Theorem C02_result_is_last_filter_result : forall flow res n act,
+  let o := do_handle ideal res flow n act in
+  ninv o = n + List.length (visits o) /\
+  result o = match List.length (visits o) with 0 => "" | S k => res (n + k) end.
+Proof. exact thm_result_is_last. Qed.
+Print Assumptions C02_result_is_last_filter_result.
+
+(** every filter ran with its node's configured namespace active *)
+Theorem C02_namespace_per_node : forall flow res n act,
+  let o := do_handle ideal res flow n act in
+  Forall (fun v => exists nd, nth_error flow (fst v) = Some nd /\ is_end nd = false /\ snd v = eff_ns nd)
+         (visits o).
+Proof. exact thm_namespace_per_node. Qed.
+Print Assumptions C02_namespace_per_node.
+
+(** before / main / after: each flow runs under the same rules; an END in any of
+    them stops everything, otherwise the visits are concatenated *)
+Theorem C02_before_after : forall res before main after n act,
+  let ob := side_run ideal res before n act in
+  let om := do_handle ideal res main (n_after ob n) (act_after ob act) in
+  let oa := side_run ideal res after (ninv om) (active om) in
+  let h := hba ideal res before main after n act in
+  (ended ob = true ->
+     hvisits h = tagv_opt 0 ob /\ hsaw_end h = true /\ hresult h = res_after ob "" /\ hninv h = n_after ob n) /\
+  (ended ob = false -> saw_end om = true ->
+     hvisits h = tagv_opt 0 ob ++ tagv 1 om /\ hsaw_end h = true /\ hresult h = result om /\ hninv h = ninv om) /\
+  (ended ob = false -> saw_end om = false ->
+     hvisits h = tagv_opt 0 ob ++ tagv 1 om ++ tagv_opt 2 oa /\ hsaw_end h = ended oa /\
+     hresult h = res_after oa (result om) /\ hninv h = n_after oa (ninv om)).
+Proof. exact thm_before_after. Qed.
+Print Assumptions C02_before_after.
+
+(** with valid before and main flows the overall result is the result of the
+    last filter run in any of the three flows *)
+Theorem C02_before_after_result : forall kinds res (before : option (list decl * list node)) dm main after n act,
+  valid_opt kinds before -> validate kinds dm main = true ->
+  let h := hba ideal res (option_map snd before) main after n act in
+  hninv h = n + List.length (hvisits h) /\
+  hresult h = match List.length (hvisits h) with 0 => "" | S k => res (n + k) end.
+Proof. exact thm_before_after_result. Qed.
+Print Assumptions C02_before_after_result.
+
+(** Spec.Validate accepts exactly the specs whose filter names are distinct,
+    not reserved and well-formed, whose filter nodes name declared filters, whose
+    jumpIf keys are results declared by the filter's kind and whose targets are
+    END or the name of exactly one later filter node *)
+Theorem C02_validate_characterisation : forall kinds ds flow,
+  validate kinds ds flow = true <-> (ValidDecls kinds ds /\ ValidFlow kinds ds flow).
+Proof. exact validate_characterisation. Qed.
+Print Assumptions C02_validate_characterisation.
+
+(** validation is sound for the run time: in a valid flow no step ever falls off
+    the end with a pending jump, and a mapped result jumps to THE unique later
+    filter node of that name (which is also the first one) *)
+Theorem C02_validate_sound_for_runtime : forall kinds ds flow,
+  validate kinds ds flow = true ->
+  (forall i nd r, nth_error flow i = Some nd -> is_end nd = false ->
+     next_spec ideal flow i r <> SFell /\
+     (r <> "" -> target nd r <> "" -> target nd r <> END ->
+        exists j, next_spec ideal flow i r = SRun j /\ first_later_named flow i j (target nd r) /\
+                  forall j', later_named flow i j' (target nd r) -> j' = j)) /\
+  (forall res n act, fin_of (do_handle ideal res flow n act) <> SFell).
+Proof. exact thm_validate_sound. Qed.
+Print Assumptions C02_validate_sound_for_runtime.
+
+(** filter reuse: nodes naming the same filter (under whatever aliases) are bound
+    to the same instance, and a flow that reuses one declared filter under any
+    list of aliases / namespaces is accepted *)
+Theorem C02_reuse_ok : forall kinds ds,
+  (forall flow, validate kinds ds flow = true ->
+     forall i j ndi ndj, nth_error flow i = Some ndi -> nth_error flow j = Some ndj ->
+       is_end ndi = false -> is_end ndj = false -> fname ndi = fname ndj ->
+       bound ds ndi = Some (fname ndi) /\ bound ds ndj = Some (fname ndi)) /\
+  (forall d (ans : list (string * string)), validate kinds ds [] = true -> In d ds ->
+     validate kinds ds (map (reuse_node (dname d)) ans) = true).
+Proof. exact thm_reuse_ok. Qed.
+Print Assumptions C02_reuse_ok.
+
+(** known finding KF-C02-end-alias-jump-target: with the quirk flag on (the
+    behaviour of the unchanged code) a spec accepted by validation ends on an
+    aliased END node instead of reaching the node its jumpIf names *)
+Theorem C02_refuted_q_end_alias_target :
+  exists kinds ds flow res,
+    validate kinds ds flow = true /\
+    next_spec ideal flow 0 (res 0) = SRun 2 /\
+    map fst (visits (do_handle ideal res flow 0 DEFAULT_NS)) = [0; 2] /\
+    next_spec quirky flow 0 (res 0) = SEnd /\
+    map fst (visits (do_handle quirky res flow 0 DEFAULT_NS)) = [0] /\
+    saw_end (do_handle quirky res flow 0 DEFAULT_NS) = true.
+Proof. exact thm_refuted_q_end_alias_target. Qed.
+Print Assumptions C02_refuted_q_end_alias_target.
+
+(** non-vacuity: a concrete valid spec (reuse, aliases, a skipped END node,
+    namespaces) and its runs; concrete invalid specs *)
+Example C02_nonvacuous :
+  validate nv_kinds nv_decls nv_flow = true /\
+  visits (do_handle ideal nv_res nv_flow 0 DEFAULT_NS) = [(0, "DEFAULT"); (3, "n2"); (5, "DEFAULT")] /\
+  saw_end (do_handle ideal (fun _ => "r1") nv_flow 0 DEFAULT_NS) = true /\
+  hvisits (hba ideal (fun _ => "r2") (Some nv_flow) nv_flow (Some nv_flow) 0 DEFAULT_NS) = [(0, 0, "DEFAULT")].
+Proof. vm_compute. repeat split; reflexivity. Qed.
